@@ -174,3 +174,31 @@ Definition py_is_param_origin (o : py_origin) : bool :=
 (* no object of the caller is mutated through a local name *)
 Definition py_inputs_untouched (t : list py_alias) : bool :=
   forallb (fun a => negb (py_is_param_origin (al_origin a) && al_mutated a)) t.
+
+(* ---------- lists of projects: remove, index, sorting by decreasing key ---------- *)
+(* xs.remove(x): the first element equal to x is removed; ValueError = None when there is none *)
+Fixpoint py_remove (l : list proj) (x : proj) : option (list proj) :=
+  match l with
+  | [] => None
+  | y :: r => if Nat.eqb y x then Some r
+              else match py_remove r x with Some t => Some (y :: t) | None => None end
+  end.
+(* xs.index(x) for an x in xs: the first position *)
+Fixpoint py_index_of (l : list proj) (x : proj) : nat :=
+  match l with
+  | [] => O
+  | y :: r => if Nat.eqb y x then O else S (py_index_of r x)
+  end.
+(* {x: i for i, x in enumerate(xs)}[x] for an x in xs: the LAST position (later entries overwrite earlier ones) *)
+Fixpoint py_last_index_of (l : list proj) (x : proj) : nat :=
+  match l with
+  | [] => O
+  | y :: r => if memb x r then S (py_last_index_of r x) else O
+  end.
+(* sorted(xs, key=lambda p: -k(p)) with keys in Q + {inf}: -a <= -b iff b <= a; Python's sort is stable *)
+Definition py_sorted_neg {A} (k : A -> Qx) (l : list A) : list A :=
+  isort (fun x y => Qx_leb (k y) (k x)) l.
+(* sorted(xs, key=lambda p: (-k(p), ix(p))): tuples compare lexicographically,
+   (a, i) <= (b, j) iff a < b or (a == b and i <= j) *)
+Definition py_sorted_neg_then {A} (k : A -> Qx) (ix : A -> nat) (l : list A) : list A :=
+  isort (fun x y => Qx_ltb (k y) (k x) || (Qx_eqb (k x) (k y) && Nat.leb (ix x) (ix y))) l.
